@@ -821,6 +821,64 @@ theorem checker_iflet_decided (sig : Sig) (cx : Cx) (hcx : CxOk sig cx) (hinh : 
   obtain ⟨n, u, h1, h2⟩ := checker_iflet_exact_src sig cx hcx hinh src t hwf
   exact ⟨u, isAdditionalPatternUseful_eq cx _ _ n u h1, h2⟩
 
+/-! ### Which declaration the scrutinee's type parameter resolves to (innermost binder) -/
+
+theorem resolveTParam_append (a b : TParams) (n : Nat) :
+    resolveTParam (a ++ b) n = (resolveTParam a n).orElse (fun _ => resolveTParam b n) := by
+  induction a with
+  | nil => simp [resolveTParam]
+  | cons x xs ih =>
+    obtain ⟨m, bd⟩ := x
+    by_cases e : m = n
+    · simp [resolveTParam, e]
+    · simp [resolveTParam, e, ih]
+
+/-- **In a static function only the function's own type parameters are in scope**: a class type
+parameter of the same name (whatever its bound) is invisible, and one the function does not declare
+does not resolve at all. -/
+theorem static_function_scope (classParams fnParams : TParams) (n : Nat) :
+    resolveTParam (scopeOf false classParams fnParams) n = resolveTParam fnParams n := by
+  simp [scopeOf]
+
+/-- **In a method the class's and the method's parameters are both visible**; when their names are
+distinct (the checker reports a collision otherwise, `tparamCollision`) each resolves to its own
+declaration. -/
+theorem method_scope (classParams fnParams : TParams) (n : Nat)
+    (hd : tparamCollision true classParams fnParams = false) :
+    resolveTParam (scopeOf true classParams fnParams) n =
+      (resolveTParam classParams n).orElse (fun _ => resolveTParam fnParams n) ∧
+    (∀ b, resolveTParam fnParams n = some b → resolveTParam (scopeOf true classParams fnParams) n = some b) := by
+  have h1 : resolveTParam (scopeOf true classParams fnParams) n =
+      (resolveTParam classParams n).orElse (fun _ => resolveTParam fnParams n) := by
+    simp [scopeOf, resolveTParam_append]
+  refine ⟨h1, ?_⟩
+  intro b hb
+  rw [h1]
+  have hnone : resolveTParam classParams n = none := by
+    cases hc : resolveTParam classParams n with
+    | none => rfl
+    | some bc =>
+      exfalso
+      have memc : ∀ (l : TParams) bd, resolveTParam l n = some bd → ∃ x ∈ l, x.1 = n := by
+        intro l
+        induction l with
+        | nil => intro bd h; simp [resolveTParam] at h
+        | cons x xs ih =>
+          intro bd h
+          obtain ⟨m, bx⟩ := x
+          by_cases e : m = n
+          · exact ⟨(m, bx), by simp, e⟩
+          · simp only [resolveTParam, e, if_false] at h
+            obtain ⟨y, hy, hyn⟩ := ih bd h
+            exact ⟨y, by simp [hy], hyn⟩
+      obtain ⟨c, hcm, hcn⟩ := memc classParams bc hc
+      obtain ⟨f, hfm, hfn⟩ := memc fnParams b hb
+      simp only [tparamCollision, Bool.true_and, List.any_eq_false] at hd
+      have := hd f hfm
+      simp only [List.any_eq_true, not_exists, not_and, decide_eq_true_eq] at this
+      exact this c hcm (by rw [hcn, hfn])
+  simp [hnone, hb]
+
 /-- **Pattern conversion is compositional** (main_checker.rs:1360-1480): the abstract node of a variant
 pattern `Tag(p₁, …, pₙ)` with the right number of arguments is the constructor node `Tag` over the
 abstract nodes of `p₁ … pₙ` — for an enum with *any* number of variants (in particular a single one:
@@ -994,6 +1052,10 @@ example : (normalize sigEx true (.object [1, 0] [.variant 0 [], .variant 0 []]) 
 example : (normalize (fun t => if t = 4 then .enum 2 [(0, [3])] else sigEx t) true
     (.variant 0 [.tuple [.variant 0 [], .wild]]) (some 4)).pat =
     .struct (some ⟨2, 0⟩) [.struct none [.struct (some ⟨0, 0⟩) [], .wild]] := by rfl
+-- `class Box<T: Narrow> { function <T: Wide> f(x: T) }`: inside `f`, `T` is the function's (bound 1 = Wide)
+example : scrutineeType (scopeOf false [(0, some 0)] [(0, some 1)]) (.tparam 0) = some 1 := by decide
+-- in a method of `Box<T: Narrow>` with its own `U: Wide`, `T` is the class's (bound 0 = Narrow)
+example : scrutineeType (scopeOf true [(0, some 0)] [(1, some 1)]) (.tparam 0) = some 0 := by decide
 -- fuel-free, both directions, on the example signature
 example : ∃ n res, (∀ m, n ≤ m → incompleteCounterexampleF cxEx m [pNone, pSome .wild] = some res) ∧
     (res = none ↔ ∀ v, hasTy sigEx v 1 = true → ∃ a ∈ [pNone, pSome .wild], pmatch a v = true) := by
